@@ -215,13 +215,20 @@ CLAIMED["C18"] = (
     "DESIGN.md sections 2 and 18, C18",
 )
 CLAIMED["C03"] = (
-    "abstract interpretation of the sign-inserting operations with the abelian core stubbed (recorded sign primitives vs the single pair-sign convention); exhaustive evaluation of the Koszul sign function",
-    "Static: every site inserting the ket-then-bra pair sign (tensordot both branches, matmul, trace, einsum key, qr/svd/eigh/solve) "
-    "follows one convention and unclassified direction-dependent sign sites are reported; the permutation used for the sign is the "
-    "one applied to the data and the virtual reversal covers exactly the contracted axes; calc_phase_permutation equals the parity "
-    "of inversions among odd entries for all parity vectors and permutations up to length 4." + PARTIAL_NOTE,
-    "Element-wise agreement with an independent graded dense calculation is not decided.",
-    "DESIGN.md section 2, C03",
+    "abstract interpretation of transposes and contractions over shaped tokens compared with the checker's own graded (Koszul) sign "
+    "reference; abstract interpretation of the sign-inserting operations with the abelian core stubbed; exhaustive evaluation of the "
+    "Koszul sign function",
+    "Bounded, against an independent reference (R03.4, R03.5): after x.transpose(perm) every block carries its previous sign times the "
+    "sign of the permutation restricted to the odd charges of its sector (the checker's own inversion count; ranks 1-4, all / a third "
+    "of the permutations); in tensordot of even-parity fermionic operands every pair product carries K(a: contracted axes to the end) * "
+    "K(b: contracted axes to the front) * K(reversal of the contracted charges) * (-1) per odd contracted pair meeting ket-then-bra, in "
+    "the blockwise and in the fused strategy (~530 contractions incl. reversed axis listings, pending signs on both operands). R03.1 / "
+    "R03.2: every public operation that contracts a pair or creates a bond inserts exactly the signs of the single ket-then-bra "
+    "convention and lays the operands out [..., contracted] [contracted, ...]. R03.3: calc_phase_permutation equals the parity of "
+    "inversions among odd entries for all parity vectors and permutations up to length 4 (exhaustive). " + BOUNDED,
+    "Odd-parity operands with labels are covered by route independence (C04), strategy agreement (C06 K3) and the norm contraction "
+    "(C10 R10.4), not by the reference; trace / einsum signs by the convention cross-check; no dense graded calculation on numbers.",
+    "DESIGN.md sections 11 and 19, C03",
 )
 
 CLAIMED["C11"] = (
